@@ -244,6 +244,11 @@ func init() {
 		"vIdealEq": func(ex *Exec, g *Goroutine, cs *callSite, args []Value) Value {
 			return ex.eqBytes(ex.sliceTerms(args[0]), ex.sliceTerms(args[1]))
 		},
+		// vNonceReuse(): have two AEAD Seal calls of this run used the same
+		// key with the same nonce? (natively: not observable, false)
+		"vNonceReuse": func(ex *Exec, g *Goroutine, cs *callSite, args []Value) Value {
+			return ex.nonceReuse()
+		},
 		// vMentions(b, secret): does the term of any byte of b depend on the
 		// stream/bytes of secret? (syntactic information flow, checked at a fresh
 		// symbolic index for functional arrays)
